@@ -156,7 +156,10 @@ let parse_exn (s : string) : exn =
   | ["user"; t; st] -> EUser (ni t, parse_site st)
   | ["CancelledError"] -> ECancelled | ["KeyError"] -> EKeyError
   | ["PoolIsClosed"] -> EPoolIsClosed | ["PoolIsLocked"] -> EPoolIsLocked
-  | _ -> failwith ("exn " ^ s)
+  | _ ->
+      (* any other exception class seen on the implementation (e.g. "Other.UnboundLocalError") is
+         not one user code raised: it is fed to the monitor as an internal error *)
+      if S.length s >= 6 && S.sub s 0 6 = "Other." then EKeyError else failwith ("exn " ^ s)
 
 let show_outcome = function
   | OResult -> "ok" | OCancelled -> "cancelled" | OExc e -> "exc/" ^ show_exn e
